@@ -230,7 +230,10 @@ def index_checks(ctx):
         fp, sp = shape(cls, "_parse")
         fb, sb = shape(cls, "_build")
         ctx.ob(rule, fb, sp == sb, "%s writes the same context entries in the same places when parsing %s and when building %s" % (cls, sorted(sp), sorted(sb)), key="%s context writes agree" % cls)
-    ctx.floor(rule, 10)
+    # what a context-reading construct yields (the repetition index, a computed value, a check's verdict) is the same in both directions (shared with C01.R5)
+    from . import C01 as _C01
+    _C01.identical_directions(ctx, rule, ("Index", "Computed", "Check", "StopIf"))
+    ctx.floor(rule, 14)
 
 
 def entry_checks(ctx):
